@@ -8,10 +8,10 @@ Local Open Scope N_scope.
 
 (* host oracle hypothesis: allocate / punch / zero inside the file never change its size *)
 Definition falloc_within (H : host) : Prop :=
-  forall size mode off len,
+  forall w size mode off len,
     let op := clear_bits mode (N.lor FL_KEEP_SIZE FL_UNSHARE_RANGE) in
     (op = 0 \/ op = FL_PUNCH_HOLE \/ op = FL_ZERO_RANGE) -> off + len <= size ->
-    snd (ho_falloc H size mode off len) = size.
+    snd (ho_falloc H w size mode off len) = size.
 
 (* the O_APPEND state of every host fd is the O_APPEND bit of the stored flags *)
 Definition hdl_ok (h : hdl) : Prop := hd_append h = has (hd_flags h) O_APPEND.
@@ -67,12 +67,11 @@ Proof.
       apply check_fd_flags_ok. exact (get_data_ok _ _ _ _ _ Hs Eg). }
     destruct (negb _); cbn [snd]; [exact Hs1|].
     destruct (len =? 0); cbn [snd]; [exact Hs1|].
-    destruct (hd_acc _ =? 0); cbn [snd]; [exact Hs1|].
+    destruct (hd_acc _ =? 0); [destruct (I64_MAX <? off); cbn [snd]; exact Hs1|].
     destruct (host_pwrite _ _ _ _ _) as [e sz]. cbn [snd]. apply set_size_ok. exact Hs1.
   - destruct (get_data C s slot file) as [h0|]; cbn [snd]; [|exact Hs].
     destruct (negb _); cbn [snd]; [exact Hs|].
-    destruct (hd_acc _ =? 0); cbn [snd]; [exact Hs|].
-    destruct (ho_falloc _ _ _ _ _) as [e sz]. cbn [snd]. apply set_size_ok. exact Hs.
+    destruct (ho_falloc _ _ _ _ _ _) as [e sz]. cbn [snd]. apply set_size_ok. exact Hs.
   - destruct (ws && c_seal C); cbn [snd]; [exact Hs|]. destruct ws; cbn [snd]; [|exact Hs].
     destruct (ho_maxbytes H <? ns); cbn [snd]; [exact Hs|apply set_size_ok; exact Hs].
   - destruct (c_no_open C); cbn [snd]; [exact Hs|].
@@ -122,7 +121,7 @@ Proof.
       by (intros v; destruct (c_no_open C); reflexivity).
     destruct (seal_size_check true (sizes s file) off len 0 =? 0) eqn:Ec; cbn [negb]; cbn [snd]; [|apply Hsz].
     destruct (len =? 0); cbn [snd]; [apply Hsz|].
-    destruct (hd_acc _ =? 0); cbn [snd]; [apply Hsz|].
+    destruct (hd_acc _ =? 0); [destruct (I64_MAX <? off); cbn [snd]; apply Hsz|].
     rewrite (check_fd_flags_append _ _ (get_data_ok _ _ _ _ _ Hs Eg)), Hk.
     assert (Hc : seal_size_check true (sizes s file) off len 0 = 0) by lia.
     destruct (seal_write_ok _ _ _ Hc) as [Hle _].
@@ -133,11 +132,10 @@ Proof.
   - destruct (get_data C s slot file) as [h0|]; cbn [snd]; [|reflexivity].
     rewrite Hseal.
     destruct (seal_size_check false (sizes s file) off len mode =? 0) eqn:Ec; cbn [negb]; cbn [snd]; [|reflexivity].
-    destruct (hd_acc _ =? 0); cbn [snd]; [reflexivity|].
     assert (Hc : seal_size_check false (sizes s file) off len mode = 0) by lia.
     destruct (seal_falloc_ok _ _ _ _ Hc) as [Hop Hle].
-    pose proof (Hf (sizes s file) mode off len Hop Hle) as Hp.
-    destruct (ho_falloc H (sizes s file) mode off len) as [e sz]. cbn [snd] in *. subst sz.
+    pose proof (Hf (negb (hd_acc h0 =? 0)) (sizes s file) mode off len Hop Hle) as Hp.
+    destruct (ho_falloc H (negb (hd_acc h0 =? 0)) (sizes s file) mode off len) as [e sz]. cbn [snd] in *. subst sz.
     unfold set_size. cbn [sizes]. destruct (f =? file) eqn:E; [|reflexivity].
     assert (f = file) by lia. subst f. reflexivity.
   - rewrite Hseal. destruct ws; cbn [andb snd]; reflexivity.
@@ -168,32 +166,41 @@ Definition sealed_sizes_full : Prop :=
   forall H C, c_seal C = true -> falloc_within H ->
   forall rs s, slots_ok s -> forall f, sizes (snd (run H C s rs)) f = sizes s f.
 
+Lemma ldiff_bit_absurd mode b k :
+  N.ldiff mode FL_KEEP_SIZE = b -> N.testbit b k = true ->
+  N.testbit 0 k = false -> N.testbit FL_PUNCH_HOLE k = false -> N.testbit FL_ZERO_RANGE k = false ->
+  N.testbit (N.lor FL_KEEP_SIZE FL_UNSHARE_RANGE) k = false ->
+  let op := N.ldiff mode (N.lor FL_KEEP_SIZE FL_UNSHARE_RANGE) in
+  ~ (op = 0 \/ op = FL_PUNCH_HOLE \/ op = FL_ZERO_RANGE).
+Proof.
+  intros Hb Hk H0 H2 H16 Hm op Hop.
+  assert (Ht : N.testbit op k = true).
+  { unfold op. rewrite N.ldiff_spec, Hm. rewrite <- Hb, N.ldiff_spec in Hk.
+    apply andb_true_iff in Hk. destruct Hk as [Hk _]. rewrite Hk. reflexivity. }
+  destruct Hop as [Ho|[Ho|Ho]]; rewrite Ho in Ht; congruence.
+Qed.
+
 Lemma tie_host_falloc_within : falloc_within tie_host.
 Proof.
-  intros size mode off len op Hop Hle. cbn [tie_host ho_falloc]. unfold linux_falloc.
+  intros w size mode off len op Hop Hle. cbn [tie_host ho_falloc]. unfold linux_falloc.
   destruct ((I64_MAX <? off) || (I64_MAX <? len) || (len =? 0)); [reflexivity|].
-  destruct (negb (N.land mode (N.lnot 127 64) =? 0)); [reflexivity|].
-  destruct (clear_bits mode FL_KEEP_SIZE =? 0).
-  { destruct (ext4_maxbytes <? off + len); cbn [snd]; [reflexivity|]. destruct (has mode FL_KEEP_SIZE); lia. }
-  destruct (clear_bits mode FL_KEEP_SIZE =? FL_PUNCH_HOLE).
-  { destruct (has mode FL_KEEP_SIZE); [destruct (ext4_maxbytes <? off + len)|]; reflexivity. }
-  destruct (clear_bits mode FL_KEEP_SIZE =? FL_ZERO_RANGE).
-  { destruct (ext4_maxbytes <? off + len); cbn [snd]; [reflexivity|]. destruct (has mode FL_KEEP_SIZE); lia. }
-  destruct (clear_bits mode FL_KEEP_SIZE =? FL_COLLAPSE_RANGE) eqn:Ec.
-  { exfalso. subst op. unfold clear_bits in *.
-    assert (Hb : N.testbit (N.ldiff mode (N.lor FL_KEEP_SIZE FL_UNSHARE_RANGE)) 3 = true).
-    { rewrite N.ldiff_spec. assert (Hm : N.testbit (N.ldiff mode FL_KEEP_SIZE) 3 = true).
-      { replace (N.ldiff mode FL_KEEP_SIZE) with FL_COLLAPSE_RANGE by lia. reflexivity. }
-      rewrite N.ldiff_spec in Hm. apply andb_true_iff in Hm. destruct Hm as [Hm _]. rewrite Hm. reflexivity. }
-    destruct Hop as [Ho|[Ho|Ho]]; rewrite Ho in Hb; discriminate. }
-  destruct (clear_bits mode FL_KEEP_SIZE =? FL_INSERT_RANGE) eqn:Ei.
-  { exfalso. subst op. unfold clear_bits in *.
-    assert (Hb : N.testbit (N.ldiff mode (N.lor FL_KEEP_SIZE FL_UNSHARE_RANGE)) 5 = true).
-    { rewrite N.ldiff_spec. assert (Hm : N.testbit (N.ldiff mode FL_KEEP_SIZE) 5 = true).
-      { replace (N.ldiff mode FL_KEEP_SIZE) with FL_INSERT_RANGE by lia. reflexivity. }
-      rewrite N.ldiff_spec in Hm. apply andb_true_iff in Hm. destruct Hm as [Hm _]. rewrite Hm. reflexivity. }
-    destruct Hop as [Ho|[Ho|Ho]]; rewrite Ho in Hb; discriminate. }
-  reflexivity.
+  destruct (negb (N.land mode (N.lnot 127 64) =? 0)); [reflexivity|]. cbv zeta.
+  set (o := clear_bits mode FL_KEEP_SIZE).
+  destruct (negb ((o =? 0) || (o =? FL_UNSHARE_RANGE) || (o =? FL_ZERO_RANGE) || (o =? FL_PUNCH_HOLE)
+                  || (o =? FL_COLLAPSE_RANGE) || (o =? FL_INSERT_RANGE))) eqn:Em; [reflexivity|].
+  destruct ((o =? FL_PUNCH_HOLE) && negb (has mode FL_KEEP_SIZE)); [reflexivity|].
+  destruct (((o =? FL_COLLAPSE_RANGE) || (o =? FL_INSERT_RANGE)) && has mode FL_KEEP_SIZE); [reflexivity|].
+  destruct (negb w); [reflexivity|].
+  destruct (ext4_maxbytes <? off + len); [reflexivity|].
+  destruct (o =? FL_UNSHARE_RANGE) eqn:E64; [reflexivity|].
+  destruct (o =? 0) eqn:E0; [cbn [snd]; destruct (has mode FL_KEEP_SIZE); lia|].
+  destruct (o =? FL_PUNCH_HOLE) eqn:E2; [reflexivity|].
+  destruct (o =? FL_ZERO_RANGE) eqn:E16; [cbn [snd]; destruct (has mode FL_KEEP_SIZE); lia|].
+  exfalso. unfold clear_bits in *.
+  destruct (o =? FL_COLLAPSE_RANGE) eqn:E8.
+  - apply (ldiff_bit_absurd mode FL_COLLAPSE_RANGE 3); try reflexivity; [subst o; lia|exact Hop].
+  - destruct (o =? FL_INSERT_RANGE) eqn:E32; [|cbn in Em; discriminate].
+    apply (ldiff_bit_absurd mode FL_INSERT_RANGE 5); try reflexivity; [subst o; lia|exact Hop].
 Qed.
 
 Definition w_state : state := init_state [10].
